@@ -113,6 +113,9 @@ func cmdCheck(args []string) {
 		}
 		return true
 	})
+	w.generateLemmas(func(props []string, t string) bool {
+		return hasProp(props, prop) && (t != "B" || tier == "thorough")
+	})
 	rep := &Report{prop: prop, tier: tier, seed: seed, w: w, outDir: outDir, replayDir: replayDir, start: start}
 	// obligations of this property
 	for _, r := range w.res {
